@@ -75,7 +75,8 @@ MinExp(m) == LET R == RegTimers(m) IN
 Wanted(m, f, b) == m.fd[f].reg /\ m.fd[f].h[b] # 0
 
 KindProp(k) == CASE k = "fd" -> "C03" [] k = "tm" -> "C04" [] k = "tk" -> "C06"
-                 [] k = "ev" -> "C08" [] k = "raw" -> "C09" [] OTHER -> "C07"
+                 [] k = "ev" -> "C08" [] k = "raw" -> "C09" [] k = "sig" -> "C10" [] k = "wait" -> "C11"
+                 [] k = "popen" -> "C19" [] k = "wi" -> "C12" [] k = "pool" -> "C13" [] OTHER -> "C07"
 
 DropDue(m, f) == [m EXCEPT !.due = {d \in @ : d[1] # f}]
 
@@ -88,6 +89,9 @@ ApiStep(m0, e) ==
                               ELSE IF e.op \in {"tk_reg", "tk_unreg"} THEN "tk"
                               ELSE IF e.op \in {"ev_reg", "ev_unreg", "ev_post"} THEN "ev"
                               ELSE IF e.op \in {"raw_reg", "raw_unreg", "raw_post"} THEN "raw"
+                              ELSE IF e.op \in {"sig_reg", "sig_unreg"} THEN "sig"
+                              ELSE IF e.op \in {"wait_reg", "wait_spawn", "wait_unreg", "wait_kill"} THEN "wait"
+                              ELSE IF e.op \in {"popen", "popen_close"} THEN "popen"
                               ELSE @]
   IN
   CASE e.op \in {"fd_reg", "fd_try"} ->
@@ -114,7 +118,7 @@ ApiStep(m0, e) ==
     [] e.op = "raw_unreg" -> [m EXCEPT !.raw[o].reg = FALSE, !.raw[o].needs = FALSE]
     [] e.op = "raw_post" -> m
     [] e.op = "quit" -> IF m.inMain /\ e.t = 0 THEN [m EXCEPT !.quit = TRUE] ELSE m
-    [] e.op \in {"pool_create", "submit", "submit_cont", "thr_create", "sig_reg", "wait_reg", "popen", "ino_reg"} ->
+    [] e.op \in {"pool_create", "submit", "submit_cont", "thr_create", "sig_reg", "wait_reg", "wait_spawn", "popen", "ino_reg"} ->
          [m EXCEPT !.opaque = TRUE]
     [] OTHER -> m
 
